@@ -88,7 +88,7 @@ Ev == Rec[ln]
 T(prop, what) == {<<ln, prop, what, mon.name>>}
 
 PropOfDev(d) == CASE d = "S12" -> "C05" [] d = "S13" -> "C13" [] d = "S14" -> "C14" [] d = "S15" -> "C05"
-                  [] d = "S18" -> "C14" [] d = "S19" -> "C13" [] d = "S20" -> "C13" [] d = "S21" -> "C05" [] OTHER -> "C18"
+                  [] d = "S18" -> "C14" [] d = "S19" -> "C13" [] d = "S20" -> "C13" [] d = "S21" -> "C05" [] d = "S22" -> "C14" [] OTHER -> "C18"
 
 Mon0 == [name |-> "-", cfg |-> [max_retry |-> 3, auto_retry |-> 2, max_interval |-> 1],
          devs |-> {}, flagged |-> {}, skip |-> FALSE,
@@ -137,6 +137,9 @@ ObsFail1(C, e, odb) ==
     \* which tables disagree with every compatible state?
     LET bad == {f \in DbFields : \A s \in C : s.st.db[f] # odb[f]}
         tg == IF bad = {} THEN T("C05", "conf.db")
+              \* only the slot count of a tower differs: the data layer's business (C18)
+              ELSE IF bad = {"towers"} /\ \E s \in C : {r.t : r \in s.st.db.towers} = {r.t : r \in odb.towers}
+                   THEN T("C18", "conf.db.slots")
               ELSE UNION {T(IF f \in {"proofs", "regs", "towers"} THEN "C14" ELSE "C05", "conf.db." \o f) : f \in bad}
         F == {[s EXCEPT !.st.db = odb, !.st.mem = IF ~e.memok THEN @ ELSE ObsMem(e.mem)] : s \in C}
     IN [bel |-> F, tags |-> tg]
